@@ -94,6 +94,19 @@ func c10Run(r *runCtx, id string, f []string) {
 	_ = s.Add(m)
 	_ = s.Add(other)
 	before := len(m.LabelValues)
+	// every third case: a reader (an export, say) holds the metric when the pass reaches it and
+	// lets go a little later; the pass waits, it does not skip the metric
+	vmCaseCounter++
+	if vmCaseCounter%3 == 0 {
+		held := make(chan struct{})
+		go func() {
+			m.RLock()
+			close(held)
+			time.Sleep(15 * time.Millisecond)
+			m.RUnlock()
+		}()
+		<-held
+	}
 	err := s.Gc()
 	// observation
 	var dump []string
